@@ -10,6 +10,7 @@ import Verif.Driver.ExecEnv
 import Verif.Driver.LogQLCodec
 import Verif.Driver.MetricCodec
 import Verif.Driver.SyntaxCodec
+import Verif.Model.Unparse
 import Verif.Gen.Offload
 import Verif.Gen.Prec
 import Verif.Gen.Palette
@@ -177,6 +178,20 @@ def handle (req : Sexp) : Sexp :=
     (match Parser.parse (SyntaxCodec.reEnvOf renv) Gen.prec Gen.isLogic (toks.items.map SyntaxCodec.tokOf) with
      | some e => .list [sym "ok", SyntaxCodec.exprS e]
      | none => .list [sym "err"])
+  | some "c05rt", [renv, toks] =>
+    -- executable sanity check of the C05 parse-level theorem statements
+    let re := SyntaxCodec.reEnvOf renv
+    let L : Unparse.Lits := { dur := fun d => Bytes.natToDec d.toNat ++ [110, 115], num := LogQL.ratToDec,
+                              byt := fun n => Bytes.natToDec n ++ [66], int := fun k => Bytes.natToDec k.toNat }
+    (match Parser.parse re Gen.prec Gen.isLogic (toks.items.map SyntaxCodec.tokOf) with
+     | none => .list [sym "err"]
+     | some e =>
+       let wf := Unparse.wfE re Gen.isLogic e
+       let canon := Unparse.canonE re Gen.isLogic L e
+       let back := match Parser.parse re Gen.prec Gen.isLogic (Unparse.exprToks L e) with
+         | some e' => decide ((SyntaxCodec.exprS e').toStr = (SyntaxCodec.exprS e).toStr)
+         | none => false
+       .list [sym "rt", ofNat (if wf then 1 else 0), ofNat (if canon then 1 else 0), ofNat (if back = true then 1 else 0)])
   | _, _ => .list [sym "bad-op"]
 
 partial def loop (h : IO.FS.Stream) (out : IO.FS.Stream) : IO Unit := do
